@@ -538,7 +538,15 @@ var _ utils.PriorityQueue
 //@ at call hnswVertex).bytesSize
 //@ set gbytes = (gbytes + $ret0) % 18446744073709551616
 //@ end
+//@ ghost idsRead int = 0
+//@ ghost savedEp uuid.UUID = uuid.Nil
+//@ at call uuid.FromBytes
+//@ set savedEp = ite(idsRead == 0, $ret0, savedEp)
+//@ set idsRead = idsRead + 1
+//@ end
 //@ requires [wf] wfShards(this) && this.config != nil && !isnil(r)
+//@ ensures [C08 entry-point-is-the-saved-one] isnil(ret) && idsRead >= 1 ==> (live(this, savedEp) ==> epv(this) == vertexOf(this, savedEp)) && (!live(this, savedEp) ==> this.entrypoint == nil)
+//@ ensures [C08 empty-stream-no-entry-point] isnil(ret) && idsRead == 0 ==> this.entrypoint == nil
 //@ ensures [C08 fresh-shards] isnil(ret) ==> forall s int :: 0 <= s && s < 16 ==> this.vertices[s] != nil && fresh(this.vertices[s])
 //@ ensures [C08 counters-from-stream] isnil(ret) ==> this.bytesSize == gbytes
 //@ ensures [C01 entry-live] isnil(ret) ==> epLive(this)
@@ -547,13 +555,23 @@ var _ utils.PriorityQueue
 //@ invariant [fresh-prefix] forall s int :: 0 <= s && s <= rangeindex ==> this.vertices[s] != nil && fresh(this.vertices[s])
 //@ invariant [counter] this.bytesSize == 0 && gbytes == 0 && this.config != nil
 //@ loop 2
+//@ invariant [C08 saved-entry-id] idsRead >= 1 && savedEp == entrypointId
 //@ invariant [fresh-prefix] forall s int :: 0 <= s && s <= rangeindex ==> this.vertices[s] != nil && fresh(this.vertices[s]) && allocated(this.vertices[s])
 //@ invariant [distinct] forall s int, t int :: 0 <= s && s < t && t <= rangeindex ==> this.vertices[s] != this.vertices[t]
 //@ invariant [counter] this.bytesSize == gbytes && this.config != nil
 //@ invariant [C01 loaded-live] forall s int, id uuid.UUID :: 0 <= s && s <= rangeindex && has(this.vertices[s], id) ==> this.vertices[s][id] != nil && istype(this.vertices[s][id], hnswVertex) && allocated(this.vertices[s][id]) && this.vertices[s][id].deleted == 0
 //@ loop 3
+//@ invariant [C08 saved-entry-id] idsRead >= 1 && savedEp == entrypointId
 //@ invariant [fresh-prefix] forall s int :: 0 <= s && s <= rangeindex + 1 ==> this.vertices[s] != nil && fresh(this.vertices[s]) && allocated(this.vertices[s])
 //@ invariant [distinct] forall s int, t int :: 0 <= s && s < t && t <= rangeindex + 1 ==> this.vertices[s] != this.vertices[t]
 //@ invariant [counter] this.bytesSize == gbytes && this.config != nil
 //@ invariant [shard] verticesShard != nil && verticesShard == this.vertices[rangeindex + 1] && fresh(verticesShard)
 //@ invariant [C01 loaded-live] forall s int, id uuid.UUID :: 0 <= s && s <= rangeindex + 1 && has(this.vertices[s], id) ==> this.vertices[s][id] != nil && istype(this.vertices[s][id], hnswVertex) && allocated(this.vertices[s][id]) && this.vertices[s][id].deleted == 0
+//@ loop 4
+//@ invariant [C08 saved-entry-id] idsRead >= 1 && savedEp == entrypointId && (live(this, entrypointId) ==> epv(this) == vertexOf(this, entrypointId)) && (!live(this, entrypointId) ==> this.entrypoint == nil)
+//@ loop 5
+//@ invariant [C08 saved-entry-id] idsRead >= 1 && savedEp == entrypointId && (live(this, entrypointId) ==> epv(this) == vertexOf(this, entrypointId)) && (!live(this, entrypointId) ==> this.entrypoint == nil)
+//@ loop 6
+//@ invariant [C08 saved-entry-id] idsRead >= 1 && savedEp == entrypointId && (live(this, entrypointId) ==> epv(this) == vertexOf(this, entrypointId)) && (!live(this, entrypointId) ==> this.entrypoint == nil)
+//@ loop 7
+//@ invariant [C08 saved-entry-id] idsRead >= 1 && savedEp == entrypointId && (live(this, entrypointId) ==> epv(this) == vertexOf(this, entrypointId)) && (!live(this, entrypointId) ==> this.entrypoint == nil)
